@@ -1107,14 +1107,22 @@ def _argmax(trace, args, avals, params, prim):
 OOB = [0]
 
 
-def _fresh_fill(dtype):
-    OOB[0] += 1
+def _fresh_fill(dtype, key=None):
+    """unconstrained value for an out-of-range read.  With `key` (ids of the index terms + position)
+    the same read in another run of the same computation gets the same symbol."""
+    if key is None:
+        OOB[0] += 1
+        tag = str(OOB[0])
+    else:
+        import hashlib
+
+        tag = hashlib.sha1(repr(key).encode()).hexdigest()[:12]
     kind = np.dtype(dtype).kind
     if kind in "iu":
-        return z3.Int(f"oob_fill_{OOB[0]}")
+        return z3.Int(f"oob_fill_{tag}")
     if kind == "b":
-        return z3.Bool(f"oob_fill_{OOB[0]}")
-    return z3.Real(f"oob_fill_{OOB[0]}")
+        return z3.Bool(f"oob_fill_{tag}")
+    return z3.Real(f"oob_fill_{tag}")
 
 
 @rule("gather")
@@ -1167,7 +1175,8 @@ def _gather(trace, args, avals, params, prim):
                     # a sound over-approximation (if the branch were feasible, obligations fail and the
                     # replay decides)
                     if mode_name == "FILL_OR_DROP" or symbolic_path[0]:
-                        return _fresh_fill(avals[0].dtype)
+                        key = tuple((("id", f.get_id()) if isinstance(f, z3.ExprRef) else repr(f)) for f in (_py(force(x)) for x in full)) + (tuple(prefix), tuple(operand.shape))
+                        return _fresh_fill(avals[0].dtype, key)
                     raise Unsupported(f"gather out of bounds {prefix}")
                 return operand[tuple(prefix)]
             i = _py(force(full[dim]))
